@@ -37,6 +37,28 @@ Theorem cfg_branch_errors : forall tg n i cur e, succ_of tg n i cur = Err e ->
 Proof. exact succ_of_err. Qed.
 Print Assumptions cfg_branch_errors.
 
+(* MAIN THEOREM: for every node sequence whose instructions carry the flags their opcodes demand
+   (J* are branches, conditional unless JMP; RET is terminal), the outcome of LabelTarget + CFG meets
+   the specification written from the property text: it is an error exactly when some label is
+   duplicated, some label has no following instruction, some branch has a non-label target or an
+   undefined label; otherwise every instruction's successors are the first instruction after the
+   referenced label (for a branch) followed by the next instruction (unless it is a return or an
+   unconditional jump), and the predecessors are exactly the inverse edges *)
+Theorem cfg_model_meets_spec : forall ns, forallb opcode_flags_ok (instructions ns) = true -> cfg_spec_b ns (cfg_model ns) = true.
+Proof. exact cfg_model_meets_spec_lemma. Qed.
+Print Assumptions cfg_model_meets_spec.
+
+(* labels are bound to the first instruction after them; LabelTarget fails exactly on duplicates
+   and labels without a following instruction *)
+Theorem label_target_exact : forall ns,
+  match label_target ns with
+  | OK tg => tg = lab_idx ns 0 /\ has_duplicate_label ns = false /\ label_without_instr ns = false
+  | Err e => has_duplicate_label ns = true \/ label_without_instr ns = true
+  | Panic _ => False
+  end.
+Proof. exact label_target_spec. Qed.
+Print Assumptions label_target_exact.
+
 (* the pinned LabelTarget missed a duplicate label when both occurrences precede the same instruction *)
 Example duplicate_label_missed_refuted :
   let nop := NInstr {| opcode := "NOP"; suffixes := []; operands := []; inputs := []; outputs := []; is_terminal := false;
